@@ -40,7 +40,7 @@ def pregen(check):
 
 CFG = {
     "id": "C16",
-    "lean_modules": ["GeomV.C16.Proofs", "GeomV.C16.LayoutProofs", "GeomV.C16.EndToEnd", "GeomV.C16.TieGeom", "GeomV.C16.ReflectProofs"],
+    "lean_modules": ["GeomV.C16.Proofs", "GeomV.C16.LayoutProofs", "GeomV.C16.EndToEnd", "GeomV.C16.TieGeom", "GeomV.C16.ReflectProofs", "GeomV.C16.ProofsFields", "GeomV.C16.ShxProofs"],
     "exe": "geomv_c16",
     "go_cmd": "c16",
     "stages": ["go:gen", "go:impl", "lean:judge"],
@@ -56,6 +56,8 @@ CFG = {
                                  "GenGeom.tie_getStartEnd", "GenGeom.tie_polygon2geom", "GenGeom.tie_polyLine2geom", "GenGeom.tie_point2geom", "GenGeom.tie_multiPoint2geom", "GenGeom.tie_shp2Geom",
                                  "GenGeom.tie_geom2point", "GenGeom.tie_geom2polygon_ring", "GenGeom.tie_geom2polygon", "GenGeom.tie_geom2polyLine", "GenGeom.tie_geom2multiPoint", "GenGeom.tie_geom2Shp",
                                  "Reflect.refl_conservative", "Reflect.refl_conservative_newEncoder", "Reflect.refl_conservative_encode", "Reflect.refl_conservative_decodeField", "Reflect.refl_conservative_decodeFields", "Reflect.refl_conservative_read", "Reflect.refl_skipped_fields", "Reflect.refl_unsupported_panics", "Reflect.newEncoderR_cols", "Reflect.refl_strict_loop_stop", "Reflect.refl_stop_column", "Reflect.refl_unexported_column", "Reflect.refl_named_type_err", "Reflect.refl_unexported_geometry", "Reflect.refl_decode_untouched", "Reflect.refl_decode_untouched_anywhere", "Reflect.refl_decode_matched_bad_kind_panics", "Reflect.refl_bad_kind_ends_read", "Reflect.refl_ptr_geom", "Reflect.refl_ptr_geom_shape", "Reflect.refl_unexported_geom_reader", "Reflect.refl_match", "Reflect.refl_match_none", "Reflect.refl_embedded_inner_invisible",
+                                 "C16_fields_roundtrip", "C16_float_text", "fmtFloat_solid", "strOf_render", "rowFields_val",
+                                 "Layout.C16_shx_invariant", "Layout.C16_shx_entries", "Layout.C16_stepMin", "Layout.C16_stepMax", "Layout.C16_box_polyline", "Layout.C16_record_box", "Layout.C16_box_multipoint", "Layout.C16_box_multipoint_minX", "Layout.C16_header_box", "Layout.C16_header_box_minX",
                                  "Gen.tie_widths", "Gen.tie_columns", "Gen.tie_lookup", "Gen.tie_cuts", "Gen.tie_write_order"]],
     "trusted_base": [
         "Lean 4.33.0 kernel; axioms of every theorem printed by #print axioms must be within {propext, Classical.choice, Quot.sound}",
